@@ -44,12 +44,29 @@ def prime(t, op):
     from vt.ref.mpt import nibs
 
     k = unhx(op[1])
-    cut(lambda: t.root_node)
+    rn = cut(lambda: t.root_node)
     cut(t.get, k)
     cut(t.exists, k)
-    cut(t.get_proof, k)
-    cut(t.traverse, tuple(nibs(k)), expect=(TraversedPartialPath,))
+    proof = cut(t.get_proof, k)
+    tr = cut(t.traverse, tuple(nibs(k)), expect=(TraversedPartialPath,))
     cut(NodeIterator(t).next, k)
+    # ... and the caller scribbles on what it was handed: results are the caller's to keep,
+    # nothing the library holds on to may be reachable through them
+    vandalize(getattr(rn, "raw", None))
+    for n in proof:
+        vandalize(n)
+    vandalize(getattr(tr, "raw", None) if not hasattr(tr, "exc") else getattr(tr.exc.node, "raw", None))
+
+
+def vandalize(x, depth=0):
+    """mutate every mutable list reachable from a result, in place"""
+    if isinstance(x, list) and depth < 4:
+        for item in list(x):
+            vandalize(item, depth + 1)
+        for i in range(len(x)):
+            if isinstance(x[i], (bytes, bytearray)):
+                x[i] = b"\xde\xad" + bytes(x[i])[:3]
+        x.append(b"scribbled")
 
 
 def build(case):
